@@ -60,9 +60,13 @@ theorem mix_alpha (sp : Space) (c1 c2 : Color α) (f : α) :
     (mix sp c1 c2 f).alpha = clamp 0 1 (interpolate c1.alpha c2.alpha f) := by
   cases sp <;> rfl
 
-/-- Compositing: the output alpha is `αₛ + α_b (1 − αₛ)` (then clamped by the constructor). -/
+/-- Compositing: the output alpha is `αₛ + α_b (1 − αₛ)` (then clamped by the constructor); when
+that is zero the constructor is handed the literal 0. -/
 theorem composite_alpha (b s : Color α) :
-    (composite b s).alpha = clamp 0 1 (s.alpha + b.alpha * (1.0 - s.alpha)) := rfl
+    (feq (s.alpha + b.alpha * (1.0 - s.alpha)) 0.0 = false →
+      (composite b s).alpha = clamp 0 1 (s.alpha + b.alpha * (1.0 - s.alpha))) ∧
+    (feq (s.alpha + b.alpha * (1.0 - s.alpha)) 0.0 = true → (composite b s).alpha = clamp 0 1 0.0) := by
+  constructor <;> intro h <;> simp only [composite, toRgba8, h] <;> rfl
 
 end order
 
@@ -193,7 +197,8 @@ theorem compositeChannel_transparent_source (cA cB : UInt8) (aB : ℝ) (hb : 0 <
 /-- **At the colour level**: the 8-bit channels of `composite` are exactly the three
 `composite_channel` values of the operands' 8-bit channels (the HSL round trip of C03 loses
 nothing), so the statements above are statements about `Color::composite`. -/
-theorem composite_channels (b s : Color ℝ) :
+theorem composite_channels (b s : Color ℝ)
+    (ha : (toRgba8 s).alpha + (toRgba8 b).alpha * (1.0 - (toRgba8 s).alpha) ≠ 0.0) :
     let bd := toRgba8 b
     let src := toRgba8 s
     let a := src.alpha + bd.alpha * (1.0 - src.alpha)
@@ -201,10 +206,26 @@ theorem composite_channels (b s : Color ℝ) :
     (toRgba8 (composite b s)).g = compositeChannel src.g src.alpha bd.g bd.alpha a ∧
     (toRgba8 (composite b s)).b = compositeChannel src.b src.alpha bd.b bd.alpha a := by
   simp only []
+  have hf : Sc.feq ((toRgba8 s).alpha + (toRgba8 b).alpha * (1.0 - (toRgba8 s).alpha)) (0.0 : ℝ) = false := by
+    cases hq : Sc.feq ((toRgba8 s).alpha + (toRgba8 b).alpha * (1.0 - (toRgba8 s).alpha)) (0.0 : ℝ)
+    · rfl
+    · exact absurd ((real_feq _ _).mp hq) ha
   unfold composite
+  simp only [hf, Bool.false_eq_true, if_false]
   exact hsl_roundtrip_real _ _ _ _
 
-
+/-- When both operands are fully transparent (output alpha 0) the result keeps the backdrop's
+bytes: in particular a colour over the same colour keeps that colour, and every channel lies
+between the inputs' channels - also in this case, where no average is defined. -/
+theorem composite_both_transparent (b s : Color ℝ)
+    (ha : (toRgba8 s).alpha + (toRgba8 b).alpha * (1.0 - (toRgba8 s).alpha) = 0.0) :
+    (toRgba8 (composite b s)).r = (toRgba8 b).r ∧ (toRgba8 (composite b s)).g = (toRgba8 b).g ∧
+    (toRgba8 (composite b s)).b = (toRgba8 b).b := by
+  have hf : Sc.feq ((toRgba8 s).alpha + (toRgba8 b).alpha * (1.0 - (toRgba8 s).alpha)) (0.0 : ℝ) = true :=
+    (real_feq _ _).mpr ha
+  unfold composite
+  simp only [hf, if_true]
+  exact hsl_roundtrip_real _ _ _ _
 
 /-- On IEEE floats (NaN, ±∞, −0 included): alpha is carried IEEE-equal through every unary
 transformation of a valid colour. -/
